@@ -3863,7 +3863,7 @@ async fn poll_k_then_drop<T>(
 /// future gets to its later await points; `R` the receiver takes one message (recv_multipart); `F` the receiver takes
 /// one FRAME with recv(); `d:<k>` / `f:<k>`: a recv_multipart() / recv() future polled at most k times and dropped (with a
 /// trailing `s` the sender sends the next unsent message between polls); `w<ms>` sleep; `fill` send until a send is refused (or stays pending);
-/// `T<ms>` set SNDTIMEO now.
+/// `T<ms>` set SNDTIMEO now; `m<i>:<k>[r]` message i frame by frame with send(), the future of the LAST frame's send polled k times and dropped.
 /// Afterwards everything is drained and one more message is sent and received. Oracle: every message received is whole,
 /// none arrives twice, what send() accepted arrives, in order; what send() refused does not; a dropped send arrives whole
 /// or not at all; nothing the receiver had been given is lost by a dropped receive; the final exchange works.
@@ -4042,6 +4042,58 @@ async fn cancel_scn(p: &[&str]) -> String {
           partial.extend(fr);
           if !partial.last().map(|f| f.is_more()).unwrap_or(false) {
             got.push(std::mem::take(&mut partial));
+          }
+        }
+      }
+      // `m<i>:<k>[r]`: message i sent FRAME BY FRAME with send(): all frames but the last are sent normally, the future of the
+      // LAST frame's send() is polled at most k times and then dropped
+      "m" => {
+        let with_reads = arg.ends_with('r');
+        let a = arg.trim_end_matches('r');
+        let (is, ks) = a.split_once(':').unwrap();
+        let i: usize = is.parse().unwrap();
+        let polls: usize = ks.parse().unwrap();
+        let mut frames = mk(i, false);
+        let last = frames.pop().unwrap();
+        let mut refused = false;
+        for f in frames {
+          match tokio::time::timeout(Duration::from_secs(5), snd.send(f)).await {
+            Ok(Ok(())) => {}
+            _ => {
+              refused = true;
+              break;
+            }
+          }
+        }
+        if refused {
+          // the message was never completed: whatever was buffered of it must not surface later
+          fate.push((i, Fate::Refused));
+        } else {
+          let rcv2 = rcv.clone();
+          let (tx, mut rx) = tokio::sync::mpsc::unbounded_channel::<Vec<Msg>>();
+          let between = move || -> std::pin::Pin<Box<dyn std::future::Future<Output = ()> + Send>> {
+            let rcv3 = rcv2.clone();
+            let tx2 = tx.clone();
+            Box::pin(async move {
+              if with_reads {
+                if let Ok(Ok(fr)) = tokio::time::timeout(Duration::from_millis(40), rcv3.recv_multipart()).await {
+                  let _ = tx2.send(fr);
+                }
+              } else {
+                tokio::time::sleep(Duration::from_millis(2)).await;
+              }
+            })
+          };
+          match poll_k_then_drop(snd.send(last), polls, between).await {
+            Some(Ok(())) => fate.push((i, Fate::Accepted)),
+            Some(Err(_)) => fate.push((i, Fate::Refused)),
+            None => fate.push((i, Fate::Dropped)),
+          }
+          while let Ok(fr) = rx.try_recv() {
+            partial.extend(fr);
+            if !partial.last().map(|f| f.is_more()).unwrap_or(false) {
+              got.push(std::mem::take(&mut partial));
+            }
           }
         }
       }
